@@ -75,7 +75,7 @@ def perturb(case, choices):
     for kind in ("source", "sink"):
         for r in case["rules"][kind]:
             r = dict(r)
-            mode = next(it) % 14
+            mode = next(it) % 16
             sites = rule_sites(facts, r, kind == "source")
             site = sites[next(it) % len(sites)] if sites else None
             if mode == 6 and site:
@@ -93,6 +93,10 @@ def perturb(case, choices):
             elif mode == 10:
                 r["lang"] = "java"
                 labels.append("restrict:lang:other")
+            elif mode == 15 and (tg.OP_KIND_SRC if kind == "source" else tg.OP_KIND_SNK).get(r.get("operation")) == "method":
+                # the rule now describes another kind of statement (a field access of that name), not the call
+                r["operation"] = "field_read" if kind == "source" else "field_write"
+                labels.append("rule:other-operation")
             full[kind].append(r)
             if mode in (11, 12) and kind == "sink" and r.get("target") and r.get("name"):
                 # a second rule for the same sink with another designated operand, restricted to a line where the
@@ -106,6 +110,16 @@ def perturb(case, choices):
                 else:
                     r2["unit_name"] = "zz_other.py"
                     labels.append("second-rule:other-unit")
+                full[kind].append(r2)
+            if mode in (13, 14) and kind == "sink" and r.get("target") and r.get("name") \
+                    and tg.OP_KIND_SNK.get(r.get("operation")) in ("call", "method"):
+                # a rule of ANOTHER operation with the same name and another designated operand: it describes a
+                # different kind of statement and must not change what is reported for this one
+                t0 = tg.rule_targets(r)[0]
+                r2 = dict(r)
+                r2["operation"] = "field_write" if tg.OP_KIND_SNK[r["operation"]] == "call" else "call_stmt"
+                r2["target"] = [tg.ARG[OTHER_TARGET.get(t0, "arg0")]]
+                labels.append("second-rule:other-operation")
                 full[kind].append(r2)
     sel = next(it) % 10
     small = None
@@ -185,6 +199,13 @@ def classify_flow(case, facts, graphs, rules, flow, ops):
                 o = tg.sink_match(facts, r, tsite, ignore=("unit_name", "line_num", "lang"))
                 if o and any(graph.operand_states(x) & reach for x in o):
                     why = "operand-of-excluded-rule"
+        # (a') the operand of a same-named rule that is written for another kind of statement
+        if why is None:
+            for r in rules["sink"]:
+                if tg.sink_match(facts, r, tsite) is None and tg.sink_match(facts, r, tsite, ignore=("operation",)) is not None:
+                    o = tg.sink_match(facts, r, tsite, ignore=("operation",))
+                    if o and any(graph.operand_states(x) & reach for x in o):
+                        why = "operand-of-other-operation-rule:" + top
         # (b) which named weakening of the reference reading explains the report
         if why is None:
             for relax, name in LADDER:
